@@ -21,6 +21,13 @@ Gs == Corpus.grammars
 
 VARIABLE cfg   \* [g, rule, full, lo, hi, ast, dev]
 
+\* which ghost / projection queues a run records (they only cost state size): VERIF_EMIT = core | all | dv | ev
+Mode == IF "VERIF_EMIT" \in DOMAIN IOEnv THEN IOEnv.VERIF_EMIT ELSE "core"
+RecEv == Mode = "ev"
+RecDv == Mode = "dv"
+RecLog == Mode = "all"
+RecCalls == Mode \in {"dv", "all"}
+
 Gram == Gs[cfg.g]
 Rules == IF cfg.ast = "src" THEN Gram.rules_src ELSE Gram.rules_opt
 HasRule(n) == \E i \in 1..Len(Rules) : Rules[i].name = n
